@@ -228,6 +228,9 @@ VOCAB = [
     G + 'VALIDSIG ' + FP + ' 2020-08-25 20200825T124012 0 4 0 1 10 01 ' + FP,
     G + 'TRUST_UNDEFINED 0 pgp', G + 'TRUST_NEVER 0 pgp', G + 'TRUST_MARGINAL 0 pgp', G + 'TRUST_FULLY 0 pgp',
     G + 'TRUST_ULTIMATE 0 direct', G + 'KEY_CONSIDERED ' + FP + ' 0', G + 'NO_PUBKEY 136880E72A7B1384',
+    # signer-chosen text echoed by gpg on other status lines (notations, policy URL) may spell anything
+    G + 'NOTATION_NAME TRUST_ULTIMATE@example.org', G + 'NOTATION_DATA TRUST_FULLY', G + 'POLICY_URL http://example.org/TRUST_MARGINAL',
+    G + 'NOTATION_DATA GOODSIG 136880E72A7B1384 x',
 ]
 
 
